@@ -193,7 +193,33 @@ def known(seed):
     return 2 if bad else 0
 
 
+def seeded(only=None):
+    """Every independent seeded change under seeded/<id>/ must be reported (exit 1) by the quick tier of the
+    property it breaks. Applied to scratch copies through bin/seedcheck; /repo is never touched."""
+    root = os.path.join(VERIF, 'seeded')
+    bad = 0
+    n = 0
+    for sid in sorted(os.listdir(root)):
+        if only and only not in sid:
+            continue
+        if not os.path.exists(os.path.join(root, sid, 'patch.diff')):
+            continue
+        t0 = time.time()
+        p = subprocess.run([os.path.join(VERIF, 'bin', 'seedcheck'), sid], stdout=subprocess.PIPE, stderr=subprocess.PIPE,
+                           text=True, timeout=7200)
+        n += 1
+        first = [l for l in p.stdout.splitlines() if l.startswith('[') or l.startswith('seeded/')]
+        print('%-42s %s  %5.1fs  %s' % (sid, 'CAUGHT' if p.returncode == 0 else 'MISSED', time.time() - t0,
+                                       (first[2] if len(first) > 2 else '')[:120]))
+        if p.returncode != 0:
+            bad += 1
+    print('%d seeded changes, %d missed' % (n, bad))
+    return 2 if bad else 0
+
+
 def main(which, seed):
+    if which and which.startswith('seeded'):
+        return seeded(which.split(':', 1)[1] if ':' in which else None)
     if which == 'known':
         return known(seed)
     if which == 'determinism':
